@@ -113,6 +113,8 @@ type Backend struct {
 	OnFrame      func(r *Rec)     // optional observer (called with be.mu held)
 	HostDefault  map[string]*Outcome // per-host outcome overriding scripts for data requests (nil = none)
 	Muted        map[string]bool     // hosts that read frames but never answer anything
+	HoldOptions  bool                // while set, OPTIONS (heartbeat) answers of started connections are withheld
+	heldOptions  []func()            // the withheld answers, in arrival order
 }
 
 var tokRe = regexp.MustCompile(`tok:([A-Za-z0-9_]+)`)
@@ -256,6 +258,19 @@ func (b *Backend) SetHostDefault(n int, o *Outcome) {
 	b.mu.Lock()
 	b.HostDefault[b.IP(n)] = o
 	b.mu.Unlock()
+}
+
+// ReleaseOptions sends the withheld OPTIONS answers in the order the requests arrived.
+func (b *Backend) ReleaseOptions() {
+	b.mu.Lock()
+	b.HoldOptions = false
+	held := b.heldOptions
+	b.heldOptions = nil
+	b.mu.Unlock()
+	for _, f := range held {
+		f()
+		time.Sleep(2 * time.Millisecond)
+	}
 }
 
 // Mute makes host n swallow every frame without answering (heartbeats included).
@@ -502,6 +517,15 @@ func (c *Conn) handle(hdr, body, raw []byte) bool {
 		be.mu.Lock()
 		rec.Kind = "options"
 		c.logRec(rec)
+		be.mu.Unlock()
+		be.mu.Lock()
+		if be.HoldOptions && c.started {
+			be.heldOptions = append(be.heldOptions, func() {
+				c.sendMsg(stream, &message.Supported{Options: map[string][]string{"CQL_VERSION": {"3.4.5"}, "COMPRESSION": {"lz4", "snappy"}}})
+			})
+			be.mu.Unlock()
+			return true
+		}
 		be.mu.Unlock()
 		c.sendMsg(stream, &message.Supported{Options: map[string][]string{"CQL_VERSION": {"3.4.5"}, "COMPRESSION": {"lz4", "snappy"}}})
 		return true
